@@ -59,6 +59,15 @@ CHECKS = {
     "C11": dict(level=MC, design="5/C11 + notes/dkg.md", technique="TLA+ specs DKGPedersen (API level, fresh + resharing, regular + fast-sync, full fault menus), DKGProtocol (per-node delivery, set.Push, ticks, early transitions) and DKGRabin model-checked with TLC; behaviours replayed on real DistKeyGenerator / Protocol / rabin objects with hand-built faulty bundles; hook traces (repo tests and replays) validated by DKGPedersenTrace",
                 text="TLC exhausts fresh DKG for n=3,4 (all t, <= n-t faulty parties with the property's fault menu, regular and fast-sync, delivery orders), six resharing shapes, the Protocol driver for n=3 with per-node orders/duplicates/equivocation, and Rabin n=3,4 with one faulty party, checking Agreement, SharesOnPoly, KeyIsSumOfQual/KeyUnchanged, UnjustifiedDealerOut, HonestDealerStays, AllHonestAllFinish; each behaviour is replayed on real objects (malicious parties are the harness signing hand-built bundles), comparing emitted responses/justifications and error classes per phase and deciding the requirement observables with real crypto; n=5..9 by simulation.",
                 note="trusted: TLC, packet-signature unforgeability (no impersonation in the menus), synchronous rounds as in the code; six root-cause classes of genuine protocol-level defects are recorded as known findings (fast-sync + equivocation + late conflict; three Rabin DKG classes)"),
+    "C13": dict(level=MC, design="5/C13 + notes/proof.md", technique="TLA+ spec of PVSS/DLEQ with provenance-tagged shares and proofs (requirement + implementation layers, refinement and filter meta-properties) model-checked with TLC; behaviours replayed on Ed25519, P-256 and the tiny residue group",
+                text="TLC checks RefinesVerify, FilterExact, RefinesRec under one and two manipulations and enumerates n=2..5 (all t, every single-field mutation incl. the share index, cross-trustee swaps, forged share+simulated proof, every recovery subset and order; n<=10 simulated); the replayer performs each mutation on real shares/proofs and compares verification verdicts, batch results (exactly the untouched indices, in order) and the recovered point with the commitment of the secret.",
+                note="trusted: TLC, symbolic DLEQ equations in the implementation layer, finite mutation menu; on the 11-element tiny group only accept-side verdicts are judged"),
+    "C14": dict(level=MC, design="5/C14 + notes/proof.md", technique="TLA+ spec of Sigma-protocol predicates as data (Or of And of Rep), provers, mutations and verifier inputs (Sigma.tla) model-checked with TLC; behaviours replayed with HashProve/HashVerify and the deniable prover over a harness clique; recorded context calls validated by SigmaTrace",
+                text="TLC enumerates all 44205 canonical predicate trees up to 2x2x2 with every branch choice, every single-variable falsification, every altered or truncated transcript item, every verifier-side change (points, predicate, protocol name) and two no-knowledge forgers, and larger shapes (4x4x3) by simulation; each behaviour is replayed on Ed25519, P-256 and BN256 G1 with the hash-based and the interactive deniable protocol, comparing accept/reject and the transcript item list; Put/Get/PubRand/PriRand traces of the real code are validated against the spec (extra coverage).",
+                note="trusted: TLC, soundness approached by finite falsification/mutation/forger menus; thorough replay is a 40000-per-suite sample of the enumerated behaviours"),
+    "C15": dict(level=MC, design="5/C15 + notes/proof.md", technique="TLA+ spec of shuffles with ciphertexts as coefficient vectors over input plaintexts and 19 adversary families (Shuffle.tla) model-checked with TLC; behaviours replayed on pair, simple, biffle and sequence shuffles with outputs certified by decryption",
+                text="TLC enumerates k=2..5 with all permutations x all output families (honest, replacement, duplication, drop+add, swap, homomorphic sum, scalar multiple, splice, byte mutation, altered parameters, simple-shuffle detachment, kernel shift) for the four shuffle kinds (NQ 1..4) with verdict accept iff the output is a re-encryption permutation proven for it; the harness holds the ElGamal key, certifies every output class by decryption and compares the verifier's verdict.",
+                note="trusted: TLC, harness-side forgers emitting the library's proof layout; soundness approached by finite strategy families; four recorded known findings (kernel shift: the statement is not hashed into the challenge)"),
 }
 
 NOT_YET = {
